@@ -1,6 +1,6 @@
 (* Correspondence cases for C04: dmrs.from_mrs. *)
 From Coq Require Import List NArith ZArith Bool.
-From PyD Require Export Base.Str Model.Hier Model.Mrs Model.Convert Corr.Common.
+From PyD Require Export Base.Str Model.Hier Model.Mrs Model.Convert Model.FromDmrs Corr.Common.
 Import ListNotations.
 
 Definition props_eqb : list (str * str) -> list (str * str) -> bool :=
@@ -20,9 +20,22 @@ Definition dmrs_eqb (a b : dmrs) : bool :=
   list_eqb dnode_eqb (d_nodes a) (d_nodes b) && list_eqb link_eqb (d_links a) (d_links b) &&
   Nat.eqb (d_warnings a) (d_warnings b).
 
+Definition ss_eqb : list (str * str) -> list (str * str) -> bool := list_eqb (pair_eqb str_eqb str_eqb).
+Definition c3_eqb (a b : cons3) : bool :=
+  let '(a1, a2, a3) := a in let '(b1, b2, b3) := b in str_eqb a1 b1 && str_eqb a2 b2 && str_eqb a3 b3.
+Definition ep_eqb (a b : ep) : bool :=
+  str_eqb (e_pred a) (e_pred b) && str_eqb (e_label a) (e_label b) && ss_eqb (e_args a) (e_args b).
+(* everything compared exactly and in order: arguments in dictionary order,
+   constraints, the variable dictionary as _fill_variables leaves it *)
+Definition mrs_eqb (a b : mrs) : bool :=
+  option_eqb str_eqb (m_top a) (m_top b) && option_eqb str_eqb (m_index a) (m_index b) &&
+  list_eqb ep_eqb (m_rels a) (m_rels b) && list_eqb c3_eqb (m_hcons a) (m_hcons b) &&
+  list_eqb c3_eqb (m_icons a) (m_icons b) && list_eqb (pair_eqb str_eqb ss_eqb) (m_vars a) (m_vars b).
+
 (* observed: 0 = a DMRS, 1 = IndexError *)
 Inductive case :=
-| CFromMrs (m : mrs) (obs : option dmrs).     (* None = IndexError *)
+| CFromMrs (m : mrs) (obs : option dmrs)     (* None = IndexError *)
+| CFromDmrs (d : dmrs) (choice : list str) (obs : mrs).
 
 Definition check_case (c : case) : bool :=
   match c with
@@ -32,4 +45,5 @@ Definition check_case (c : case) : bool :=
       | CIndexError, None => true
       | _, _ => false
       end
+  | CFromDmrs d choice obs => option_eqb mrs_eqb (mrs_from_dmrs d choice) (Some obs)
   end.
